@@ -12,6 +12,7 @@ import (
 	"verif/harness/docs"
 	"verif/harness/gen"
 	"verif/harness/jv"
+	"verif/harness/model"
 )
 
 // RunCase is one generated program with its jobs (E-run).
@@ -19,6 +20,7 @@ type RunCase struct {
 	Case  *gen.Case
 	Jobs  []core.Job
 	Class string
+	Model *model.File // set for single-file cases: enables the model-level reducer
 	// filled by evaluation
 	GenErr string
 }
